@@ -147,6 +147,7 @@ const (
 	ShapeSelector PodShape = iota
 	ShapeAffinity
 	ShapeDefault // no selector, no affinity: belongs to the group named "default"
+	ShapeAffinityExclude // required affinity: In [own value] and NotIn [the other groups' values], Exists on a foreign key
 )
 
 // BuildPod makes a pod of node group gi requesting cpu millicores and mem bytes.
@@ -173,6 +174,20 @@ func (e *Env) BuildPod(gi int, cpu, mem int64, shape PodShape) *v1.Pod {
 	switch shape {
 	case ShapeSelector:
 		p.Spec.NodeSelector = map[string]string{spec.Opts.LabelKey: spec.Opts.LabelValue}
+	case ShapeAffinityExclude:
+		var others []string
+		for i := range e.Groups {
+			if i != gi {
+				others = append(others, e.Groups[i].Opts.LabelValue)
+			}
+		}
+		exprs := []v1.NodeSelectorRequirement{{Key: spec.Opts.LabelKey, Operator: v1.NodeSelectorOpIn, Values: []string{spec.Opts.LabelValue}}}
+		if len(others) > 0 {
+			exprs = append(exprs, v1.NodeSelectorRequirement{Key: spec.Opts.LabelKey, Operator: v1.NodeSelectorOpNotIn, Values: others})
+			exprs = append(exprs, v1.NodeSelectorRequirement{Key: "zone-" + others[0], Operator: v1.NodeSelectorOpIn, Values: others})
+		}
+		p.Spec.Affinity = &v1.Affinity{NodeAffinity: &v1.NodeAffinity{RequiredDuringSchedulingIgnoredDuringExecution: &v1.NodeSelector{
+			NodeSelectorTerms: []v1.NodeSelectorTerm{{MatchExpressions: exprs}}}}}
 	case ShapeAffinity:
 		p.Spec.Affinity = &v1.Affinity{NodeAffinity: &v1.NodeAffinity{RequiredDuringSchedulingIgnoredDuringExecution: &v1.NodeSelector{
 			NodeSelectorTerms: []v1.NodeSelectorTerm{{MatchExpressions: []v1.NodeSelectorRequirement{
